@@ -280,6 +280,24 @@ def run_refill(case, ctx, mon):
         mon.tick("batch-never-recycled", len(batches))
         batches.append(new)
         mon.count("refills_observed")
+    # observational: without touching the pointer, count the probabilistic unit adds served between two changes of the
+    # batch content; a batch of n values that serves more than n draws has recycled one
+    s3 = mk(kind, 2**32 - 1, 15 if kind == "log8" else 1023, 1, 1)
+    gaps = []
+    since = 0
+    last = s3.rand_nums.tobytes()
+    for _ in range(3 * 2048 + 600):
+        s3.cms[:] = park
+        s3.add(key, 1)
+        cur = s3.rand_nums.tobytes()
+        if cur != last:
+            gaps.append(since)
+            since = 0
+            last = cur
+        since += 1
+    for g in gaps[1:]:
+        mon.check(g <= len(s3.rand_nums), "a-batch-serves-at-most-its-length-in-draws", gaps=gaps, batch_length=int(len(s3.rand_nums)))
+    mon.check(len(gaps) >= 3, "batches-are-replenished-when-exhausted", gaps=gaps)
     allv = np.sort(np.concatenate(batches[1:]))
     n = len(allv)
     d = float(np.max(np.abs(allv - (np.arange(1, n + 1) - 0.5) / n))) + 0.5 / n
@@ -339,6 +357,12 @@ def gen_cases(ctx):
                 evs.append(["merge", a, 1 - a])
             else:
                 evs.append([int(rng.integers(0, 2)), ops.gen_op(rng, keys, max_value=200, big=0, zero=0.05)])
+        if i % 3 == 0:
+            # bulk adds far beyond 16 bits on keys still inside the reserved range (the kernel loops once per unit,
+            # and stops at the ceiling, so this stays cheap for small max_count)
+            for _ in range(3):
+                v = pick(rng, [65536, 65536 + int(rng.integers(0, nr + 2)), 2**17, 2**17 + 3, 10**5, 2**16 - 1, 2**20 + int(rng.integers(0, 40))])
+                evs.insert(int(rng.integers(0, len(evs) + 1)), [int(rng.integers(0, 2)), ["add", hx(keys[int(rng.integers(0, len(keys)))]), v]])
         cases.append({"type": "lower", "cfg": cfg, "events": evs})
     cases.append({"type": "refill", "kind": "log8", "R": 25 if q else 250, "processes": True})
     cases.append({"type": "refill", "kind": "log16", "R": 25 if q else 250, "processes": False})
